@@ -664,6 +664,23 @@ impl<T: Elem + IdOf + Clone + Debug, N: ArrayLength> Run<T, N> {
                 if got != want {
                     return Err(format!("Debug shows {:?} but the remaining elements are {:?} (output: {})", got, want, &s[..s.len().min(120)]));
                 }
+                // the caller's format flags reach the elements, as they do for the slice of the remaining elements
+                if op == Op::DebugAlt && T::KIND == "u32" && !want.is_empty() {
+                    let rest = self.it.as_slice();
+                    for (spec, got, inner) in [
+                        ("{:x?}", format!("{:x?}", self.it), format!("{:x?}", rest)),
+                        ("{:X?}", format!("{:X?}", self.it), format!("{:X?}", rest)),
+                        ("{:07?}", format!("{:07?}", self.it), format!("{:07?}", rest)),
+                        ("{:+?}", format!("{:+?}", self.it), format!("{:+?}", rest)),
+                    ] {
+                        if !got.contains(&inner) {
+                            return Err(format!("Debug with {spec} prints {:?}, which does not show the remaining elements as the slice prints them ({:?})", &got[..got.len().min(100)], &inner[..inner.len().min(100)]));
+                        }
+                    }
+                    if s.lines().count() < want.len() {
+                        return Err(format!("Debug with {{:#?}} is not pretty-printed: {:?}", &s[..s.len().min(100)]));
+                    }
+                }
                 Ok(())
             }
         }
